@@ -12,3 +12,4 @@ def run(ck):
     traps.r7_edge_clamps(ck, P)              # C04-R7: a read-modify-write of the byte after a row races with the thread that owns the adjacent image
     image.r_validate_clears_dirty(ck, P, 'C16-R5')
     prefetch.r11_tail_access_needs_remaining_count(ck, P, 'C16-R6')   # a read-modify-write of the word after the span races with the thread that owns it
+    threads.r7_source_iterators_do_not_write_their_image(ck, P)
